@@ -75,8 +75,12 @@ def cases(tier):
         yield {"kind": "eval", "trees": batch}
     yield {"kind": "mutual"}
     yield {"kind": "near"}
+    yield {"kind": "chain"}
     for eps in (None, "0.125", "0.0009765625"):
         yield {"kind": "boundary", "eps": eps}
+    # the tolerance is EPSILON's business alone: the print precision must not move it
+    for eps, prec in ((None, "2"), (None, "6"), ("0.125", "2"), ("0.0009765625", "6")):
+        yield {"kind": "boundary", "eps": eps, "precision": prec}
     for prec in (None, "2", "6"):
         yield {"kind": "print", "precision": prec}
 
@@ -241,13 +245,14 @@ def check_boundary(r, case):
                     want = compare(op, Fraction(fa), Fraction(fb), eps if dyadic else Fraction(float(eps)))
                     queries.append({"kind": "cmp", "op": op, "a": repr(fa), "b": repr(fb)})
                     wants.append(want)
-    got = sub_run({"EPSILON": case["eps"]}, queries)
+    got = sub_run({"EPSILON": case["eps"], "NUMERIC_PRECISION": case.get("precision")}, queries)
     for q, w, g in zip(queries, wants, got):
         r.count("transitions")
         r.count("states")
         if g is not w:
-            r.fail("tolerance", f"EPSILON={case['eps'] or 'default'}: ({q['op']} {q['a']} {q['b']}) -> {g}, expected {w}", w,
-                   str(g), tags=[q["op"], f"eps={case['eps']}"])
+            r.fail("tolerance", f"EPSILON={case['eps'] or 'default'} NUMERIC_PRECISION={case.get('precision') or 'unset'}: "
+                   f"({q['op']} {q['a']} {q['b']}) -> {g}, expected {w}", w,
+                   str(g), tags=[q["op"], f"eps={case['eps']}", f"precision={case.get('precision')}"])
             if len(r.fails) >= 3:
                 return
 
@@ -363,8 +368,66 @@ def check_near(r, case):
                     return
 
 
+CHAIN = [("(and (increase (f) 1.5))", {"f": "(+ (f) 1.5)"}), ("(and (decrease (f) (g ?x)))", {"f": "(- (f) (g ?x))"}),
+         ("(and (assign (f) (* (f) (g ?x))))", {"f": "(* (f) (g ?x))"}),
+         ("(and (increase (g ?x) (f)) (decrease (out) 1))", {"g ?x": "(+ (g ?x) (f))", "out": "(- (out) 1)"}),
+         ("(and (assign (g ?y) (g ?x)) (increase (g ?x) 0.5))", {"g ?y": "(g ?x)", "g ?x": "(+ (g ?x) 0.5)"})]
+
+
+def check_chain(r, case):
+    """one grounded operator applied to its own successors: every successor of the chain, read when it is produced
+    and read again after all later applications, holds old+v / old-v / v of its own predecessor"""
+    r.nontrivial = True
+    S = RefDomain.from_tree(sexp.read(HDR + ")"))
+    for eff, want in CHAIN:
+        D = _dom(f":precondition (and) :effect {eff}")
+        for vals in product([Fraction(1), Fraction(-2), Fraction(1, 2)], repeat=3):
+            pre = RefState([], {("f",): vals[0], ("g", "o1"): vals[1], ("g", "o2"): vals[2], ("out",): Fraction(0)})
+            exps, cur = [], pre
+            for _ in range(3):
+                nxt = dict(cur.fluents)
+                for tgt, expr in want.items():
+                    nxt[tuple(BETA.get(t, t) for t in tgt.split(" "))] = value(S, sexp.read(expr), BETA, cur)
+                cur = RefState([], nxt)
+                exps.append(cur)
+            init = " ".join(f"(= ({' '.join(k)}) {fmt_num(x)})" for k, x in pre.fluents.items())
+            ptxt = f"(define (problem p) (:domain c12) (:objects o1 o2 - t1) (:init {init}) (:goal (and)))"
+            for fresh in (False, True):
+                def q():
+                    from pddl_plus_parser.multi_agent.common import create_initial_state
+                    P = parse_problem(ptxt, D)
+                    op = operator(D, "a", ["o1", "o2"], P.objects)
+                    states, seen_then = [create_initial_state(P)], []
+                    for _ in range(3):
+                        if fresh:
+                            op = operator(D, "a", ["o1", "o2"], P.objects)
+                        states.append(op.apply(states[-1]))
+                        seen_then.append(observe_state(states[-1]))
+                    return seen_then, [observe_state(s) for s in states[1:]], observe_state(states[0])
+                got = guard(q)
+                r.count("transitions", 3)
+                r.count("states", 3)
+                how = "a fresh operator per step" if fresh else "one operator re-used"
+                if isinstance(got, Raised):
+                    r.fail("chain", f"{eff} x3 ({how}) raised {got}", "states", got.to_json(), tags=["chain"])
+                    return
+                then, later, first = got
+                for i, e in enumerate(exps):
+                    for label, seen in (("when produced", then[i]), ("after the later applications", later[i])):
+                        if seen.fluents != e.fluents:
+                            r.fail("chain", f"{eff} applied 3 times ({how}) from "
+                                   f"{ {' '.join(k): str(v) for k, v in pre.fluents.items()} }: successor {i + 1} read {label} "
+                                   f"= {seen.to_json()['fluents']}, expected { {' '.join(k): str(v) for k, v in e.fluents.items()} }",
+                                   str(e.to_json()), str(seen.to_json()), tags=["chain", label])
+                            return
+                if first.fluents != pre.fluents:
+                    r.fail("chain", f"{eff} applied 3 times ({how}): the initial state reads {first.to_json()['fluents']} "
+                           f"afterwards", str(pre.to_json()), str(first.to_json()), tags=["chain", "initial"])
+                    return
+
+
 def check_case(case):
     r = CaseResult()
     {"eval": check_eval, "boundary": check_boundary, "print": check_print, "mutual": check_mutual,
-     "near": check_near}[case["kind"]](r, case)
+     "near": check_near, "chain": check_chain}[case["kind"]](r, case)
     return r
